@@ -243,9 +243,9 @@ func init() {
 	mc.Register(&mc.Check{
 		ID:    "C10",
 		Level: "model_checking",
-		Rule: "engine S: all histories of <=5 (thorough <=6, <=7 from the zero value) calls over a 29-letter alphabet of call classes (Bytes, CSel, NSel, LOD, SetCSel, SetNSel, SetCReg/SetNReg {ok, ok-incr, ADJ=7, incr with ADJ=1}, SetLOD, StartPath {ok, ADJ=7, ADJ=71}, SetCReg ADJ=130, SetNReg ADJ=64, L, A, H, Y, Z, Reset {default, custom}) from 3 initial objects (zero value, Reset(default), after an error), " +
+		Rule: "engine S: all histories of <=5 (thorough <=6; from the zero value also every history of 7 calls whose last five come from a 21-letter core alphabet) calls over a 29-letter alphabet of call classes (Bytes, CSel, NSel, LOD, SetCSel, SetNSel, SetCReg/SetNReg {ok, ok-incr, ADJ=7, incr with ADJ=1}, SetLOD, StartPath {ok, ADJ=7, ADJ=71}, SetCReg ADJ=130, SetNReg ADJ=64, L, A, H, Y, Z, Reset {default, custom}) from 3 initial objects (zero value, Reset(default), after an error), " +
 			"plus every value 0..255 of the uint8 argument of StartPath, SetCReg, SetNReg (with and without increment), SetCSel, SetNSel; " +
-			"each executed on a real Encoder in lock step with the 3-state specification automaton; then breadth-first search to depth 12 over canonical private states (reflective dump minus write-only buffers). " +
+			"each executed on a real Encoder in lock step with the 3-state specification automaton; then breadth-first search to depth 12 (thorough 16) over canonical private states (reflective dump minus write-only buffers). " +
 			"In every state: Bytes errs iff the automaton is in error, the error value is the first one and sticky, Bytes twice equal, closed error-free histories decode to exactly the calls since the last Reset, zero-value and Reset(default) objects agree on bytes, errors and read-backs. " +
 			"states = distinct canonical Encoder states seen, transitions = calls executed in the BFS, evaluations = histories judged; non-trivial = history reaches the error state or contains a closed path",
 		Assumptions: []string{"abstraction drops the fields buf, altBuf, scratch, metadata (write-only after Reset); merges are validated by comparing incremental outputs on all 1-letter (depth<=5) and 2-letter (depth<=3) suffixes"},
@@ -261,10 +261,7 @@ func init() {
 			}
 			init, l0, l1 := u/(nl*nl), u/nl%nl, u%nl
 			D := c10Depth(w.Tier)
-			if w.Thorough && init == 0 {
-				D = 7 // the zero value (which is also compared with the reset object) one level deeper
-			}
-			seq := make([]int, 0, D)
+			seq := make([]int, 0, 8)
 			seq = append(seq, l0)
 			if l1 == 0 {
 				c10Check(w, init, seq) // the length-1 history
@@ -284,6 +281,36 @@ func init() {
 					rec()
 					seq = seq[:len(seq)-1]
 				}
+			}
+			if w.Thorough && init == 0 {
+				// the zero value (which is also compared with the reset object) one level deeper:
+				// histories of exactly 7 letters whose letters 3..7 come from the core alphabet
+				// (one representative per call class: without the read-backs and the second
+				// representatives of the bad-adjustment classes)
+				var core []int
+				for l := range c10Letters {
+					switch c10Letters[l].name {
+					case "CSel", "NSel", "LOD", "StartPath(71,1,2)", "SetCReg(130,false,rgba)", "SetNReg(64,false,1.25)", "SetCReg(7,false,rgba)", "SetNReg(1,true,2)":
+					default:
+						core = append(core, l)
+					}
+				}
+				var rec7 func()
+				rec7 = func() {
+					if len(seq) == 7 {
+						if !w.Expired() {
+							c10Check(w, init, seq)
+						}
+						return
+					}
+					for _, l := range core {
+						seq = append(seq, l)
+						rec7()
+						seq = seq[:len(seq)-1]
+					}
+				}
+				rec7()
+				w.Depth(7)
 			}
 			rec()
 			w.Depth(D)
@@ -515,6 +542,9 @@ func c10Incr(init int, hist, suffix []int) string {
 
 func c10BFS(w *mc.W) {
 	maxDepth := 12
+	if w.Thorough {
+		maxDepth = 16
+	}
 	nl := len(c10Letters)
 	type node struct {
 		hist []int
